@@ -48,6 +48,12 @@ def assert_repo():
     p = os.path.realpath(swcgeom.__file__)
     if not p.startswith("/repo/"):
         raise SystemExit(f"HARNESS: swcgeom imported from {p}, not /repo")
+    # warm up everything a run may import, so that forked runs start from one complete image
+    import swcgeom.analysis  # noqa: F401
+    import swcgeom.core  # noqa: F401
+    import swcgeom.core.swc_utils  # noqa: F401
+    import swcgeom.transforms  # noqa: F401
+    import swcgeom.utils  # noqa: F401
 
 
 class RunHang(BaseException):
@@ -81,6 +87,39 @@ def execute_guarded(mod, program: dict) -> dict:
     return res
 
 
+def execute_isolated(mod, program: dict) -> dict:
+    """Execute one program in a forked child of this (already warmed-up) interpreter.
+
+    Every run therefore starts from the same process image: state that the library keeps at module or
+    class level (a shared default list, a cache, the global NumPy RNG) cannot leak from one run into
+    the next, which would make a run depend on which runs happened to precede it in its worker - and
+    would make the fresh-interpreter replay of a minimised program disagree with the batch.
+    """
+    if os.environ.get("VERIF_ISOLATE", "1") == "0":
+        return execute_guarded(mod, program)
+    r, w = os.pipe()
+    pid = os.fork()
+    if pid == 0:
+        code = 0
+        try:
+            os.close(r)
+            res = execute_guarded(mod, program)
+            with os.fdopen(w, "w") as f:
+                json.dump(res, f, default=str)
+        except BaseException:  # noqa: BLE001
+            code = 70
+        finally:
+            os._exit(code)
+    os.close(w)
+    with os.fdopen(r, "r") as f:
+        data = f.read()
+    _, status = os.waitpid(pid, 0)
+    if status != 0 or not data:
+        return {"harness_error": f"isolated run died: wait status {status}, {len(data)} bytes of result",
+                "digest": "error", "steps": 0}
+    return json.loads(data)
+
+
 # ---------------------------------------------------------------------------
 # shard worker
 
@@ -96,7 +135,7 @@ def cmd_shard(prop: str, tier: str, verif_seed: int, shard: int, out: str) -> in
             program = mod.generate(Prng(seed), tier)
             program["_seed"] = seed
             program["_index"] = i
-            res = execute_guarded(mod, program)
+            res = execute_isolated(mod, program)
             rec = {
                 "i": i,
                 "seed": seed,
@@ -156,13 +195,13 @@ def cmd_shrink(prop: str, path: str) -> int:
                 continue
             seen.add(key)
             used += 1
-            res = execute_guarded(mod, cand)
+            res = execute_isolated(mod, cand)
             v = res.get("violation")
             if v and signature(v) == sig and match_finding(mod, findings, cand, v) is None:
                 best = cand
                 improved = True
                 break
-    res = execute_guarded(mod, best)
+    res = execute_isolated(mod, best)
     out = {
         "program": best,
         "violation": res.get("violation"),
@@ -182,7 +221,7 @@ def cmd_digests(prop: str, tier: str, verif_seed: int, start: int, count: int, s
         seed = run_seed(verif_seed, prop, i)
         program = mod.generate(Prng(seed), tier)
         ph = hashlib.sha256(json.dumps(program, sort_keys=True).encode()).hexdigest()[:16]
-        res = execute_guarded(mod, program)
+        res = execute_isolated(mod, program)
         v = res.get("violation")
         print(i, res.get("digest"), ph, signature(v) if v else "-", flush=True)
     return 0
@@ -194,7 +233,7 @@ def cmd_exec(prop: str, path: str) -> int:
     with open(path) as f:
         doc = json.load(f)
     program = doc["program"] if "program" in doc else doc
-    res = execute_guarded(mod, program)
+    res = execute_isolated(mod, program)
     v = res.get("violation")
     print(json.dumps({
         "signature": signature(v) if v else None,
